@@ -1,7 +1,8 @@
 (* C18 driver.  One request per line:
      hist P:<id>:<key|->:<sn|->:<persisted sn|->:<iid.fmt,...|->:<sig 0|1> ...
           A:<hdr>:<body> | R:<id>:<sn> (regular adv) | O:<id>:<sn> (populate) | U:<id>:<sn> (_update_state_num) | X (restart) | K:<id>:<key> (key regeneration)
-          | EB:<id>:<g> (connected event up to the key request) | EE:<id>:<g>:<key|fail> (its completion) ...
+          | EB:<id>:<g> (connected event up to the key request) | EE:<id>:<g>:<key|fail> (its completion)
+          | LB:<id> (poll starts) | LE:<id>:<n|fail> (poll ends) ...
    body = S.<key>.<ctr>.<aad>.<pt> | J | H.<n,n,...|-> | E
    answer: one token per event  <outcome>/<calls|->/<sn,sn,...>/<psn,psn,...>/<fb 0|1>/<key,key,...>  (description / persisted number and key of every pairing, - = None; fb = falls_back)
      val <fmt> <hex>      -> from_bytes on its own *)
@@ -56,6 +57,8 @@ let handle = function
           | ["EB"; id; g] -> Bcast.event_begin (bytes_of_hex id) (n_of_dec g)
           | ["EE"; id; g; r] -> Bcast.event_end (bytes_of_hex id) (n_of_dec g)
                                   (if r = "fail" then Bcast.ReqFail else Bcast.ReqOk (n_of_dec r))
+          | ["LB"; id] -> Bcast.poll_begin (bytes_of_hex id)
+          | ["LE"; id; r] -> Bcast.poll_end (bytes_of_hex id) (if r = "fail" then Bcast.PollFail else Bcast.PollOk (n_of_dec r))
           | _ -> failwith "event" in
         let last = ref None in
         Stdlib.List.iter (fun op -> let ((c', o), cl) = Bcast.apply !c op in c := c'; last := Some (op, o, cl)) ops;
